@@ -19,6 +19,7 @@ func installOracles(m *Monitors) {
 		&orC04{baseOracle: baseOracle{m}},
 		&orC05{baseOracle: baseOracle{m}},
 		&orC06{baseOracle: baseOracle{m}},
+		&orC08{baseOracle: baseOracle{m}},
 		&orC10{baseOracle: baseOracle{m}},
 		&orC11{baseOracle: baseOracle{m}},
 		&orC20{baseOracle: baseOracle{m}},
